@@ -192,6 +192,20 @@ def run_print_eq(ctx):
             common.add_violation(ctx, 'building the inverted operator raises', {'kind': 'centric', 'components': texts}, 'operator', repr(ex))
             continue
         n += 1
+        # a copy shifted by a lattice translation (apply_latt_symm) keeps the rotation part and adds the translation - for plain and inverted operators
+        try:
+            shift = SymmetryElement(['1/2', '1/2', '0'])
+            for what_, o_ in (('operator', plain), ('inverted operator', inv)):
+                c_ = o_.apply_latt_symm(shift)
+                ok_ = all(c_.matrix[i, j] == o_.matrix[i, j] for i in range(3) for j in range(3)) and \
+                    all(abs(float(a) - float(b) - d) < 1e-12 for a, b, d in zip(c_.trans, o_.trans, (0.5, 0.5, 0.0)))
+                if not ok_:
+                    common.add_violation(ctx, 'the copy of an %s shifted by a lattice translation is not the same rotation with the translation added' % what_,
+                                         {'kind': 'centric', 'components': texts}, 'rows %s' % [[o_.matrix[i, j] for j in range(3)] for i in range(3)],
+                                         'rows %s trans %s' % ([[c_.matrix[i, j] for j in range(3)] for i in range(3)], list(c_.trans)))
+                    break
+        except Exception as ex:
+            common.add_violation(ctx, 'apply_latt_symm raises', {'kind': 'centric', 'components': texts}, 'operator', repr(ex))
         for what, o in (('centric=True', cen), ('inverted()', inv)):
             ok = all(o.matrix[i, j] == -plain.matrix[i, j] for i in range(3) for j in range(3)) and \
                 all(abs(float(a) + float(b)) < 1e-12 for a, b in zip(o.trans, plain.trans))
@@ -249,6 +263,9 @@ def run_print_eq(ctx):
         a2.trans = Array([float(x) for x in ta])
         b.trans = Array([float(x) for x in tb])
         impl = bool(a2 == b)
+        if bool(a2 != b) == impl:
+            common.add_violation(ctx, 'two operators are equal and unequal at the same time (== and != disagree)',
+                                 {'kind': 'eq', 'a': a2.to_shelxl(), 'b': b.to_shelxl(), 'ta': [str(x) for x in ta], 'tb': [str(x) for x in tb]}, not impl, bool(a2 != b))
         mat_same = all(a2.matrix[i, j] == b.matrix[i, j] for i in range(3) for j in range(3))
         exact = mat_same and all((x - y).denominator == 1 for x, y in zip(ta, tb))
         n += 1
